@@ -394,6 +394,12 @@ def load_glb(
     if chunk_type != _magic["json"]:
         raise ValueError("no initial JSON header!")
 
+    # a corrupt chunk length can be far larger than the file and a
+    # read of that size allocates the whole buffer before reading
+    available = _bytes_remaining(file_obj)
+    if chunk_length > available:
+        raise ValueError("JSON chunk is longer than the file!")
+
     # uint32 causes an error in read, so we convert to native int
     # for the length passed to read, for the JSON header
     json_data = file_obj.read(int(chunk_length))
@@ -432,6 +438,8 @@ def load_glb(
         # make sure we have the right data type
         if chunk_type != _magic["bin"]:
             raise ValueError("not binary GLTF!")
+        if chunk_length > _bytes_remaining(file_obj):
+            raise ValueError("chunk is longer than the file!")
         # read the chunk
         chunk_data = file_obj.read(int(chunk_length))
         if len(chunk_data) != chunk_length:
@@ -451,6 +459,32 @@ def load_glb(
     )
 
     return kwargs
+
+
+def _bytes_remaining(file_obj) -> float:
+    """
+    Count the bytes between the current position
+    and the end of a file object.
+
+    Parameters
+    -------------
+    file_obj : file-like object
+      Open file object
+
+    Returns
+    -------------
+    remaining
+      Number of bytes left or infinity
+      if the file object can't seek.
+    """
+    try:
+        current = file_obj.tell()
+        file_obj.seek(0, 2)
+        end = file_obj.tell()
+        file_obj.seek(current)
+        return end - current
+    except BaseException:
+        return float("inf")
 
 
 def _uri_to_bytes(uri: str, resolver: ResolverLike) -> bytes:
